@@ -46,9 +46,11 @@ static void check_packet(PDU* root, const std::string& kase) {
 
 // ---- family H: raw option histories
 struct Shape { int type; int len; };
+// an option with l >= 0 data bytes, or with -l data bytes and an advertised length field 8 larger than the data
+template <class Opt, class T> Opt make_opt(T type, int l, const Bytes& data) { return l >= 0 ? Opt(type, (size_t)l, data.data()) : Opt(type, (size_t)(-l + 8), data.data(), data.data() + (-l)); }
 template <class Q, class AddFn, class RemFn>
 static void histories(const char* cname, const std::vector<int>& types, AddFn add, RemFn rem, int depth) {
-    std::vector<int> lens = {0, 3, 9};
+    std::vector<int> lens = {0, 3, 9, -4};      // negative: |len| data bytes with a SPOOFED length field (|len| + 8), see make_opt
     // ops: add(type, len) for each type x len; remove(type)
     struct Op { bool is_add; int type; int len; };
     std::vector<Op> ops;
@@ -128,14 +130,14 @@ int main(int argc, char** argv) {
             // ---- family H (dealt by class over jobs 0..6)
             int depth = 3;
             Bytes data = pattern(9, 0x61);
-            if (job == 0) histories<TCP>("TCP", {2, 34, 254}, [&](TCP& q, int t, int l) { q.add_option(TCP::option((TCP::OptionTypes)t, l, data.data())); }, [](TCP& q, int t) { q.remove_option((TCP::OptionTypes)t); }, depth);
-            if (job == 1) histories<IP>("IP", {0x88, 0x07, 0x94}, [&](IP& q, int t, int l) { q.add_option(IP::option(IP::option_identifier((uint8_t)t), l, data.data())); }, [](IP& q, int t) { q.remove_option(IP::option_identifier((uint8_t)t)); }, depth);
-            if (job == 2) histories<DHCP>("DHCP", {53, 12, 0, 255}, [&](DHCP& q, int t, int l) { q.add_option(DHCP::option((DHCP::OptionTypes)t, l, data.data())); }, [](DHCP& q, int t) { q.remove_option((DHCP::OptionTypes)t); }, depth);
-            if (job == 3) histories<DHCPv6>("DHCPv6", {1, 8, 17}, [&](DHCPv6& q, int t, int l) { q.add_option(DHCPv6::option((uint16_t)t, l, data.data())); }, [](DHCPv6& q, int t) { q.remove_option((DHCPv6::OptionTypes)t); }, depth);
-            if (job == 4) histories<ICMPv6>("ICMPv6", {1, 5, 200}, [&](ICMPv6& q, int t, int l) { q.add_option(ICMPv6::option((uint8_t)t, l, data.data())); }, [](ICMPv6& q, int t) { q.remove_option((ICMPv6::OptionTypes)t); }, depth);
-            if (job == 5) histories<Dot11Beacon>("Dot11Beacon", {0, 3, 221}, [&](Dot11Beacon& q, int t, int l) { q.add_option(Dot11::option((uint8_t)t, l, data.data())); }, [](Dot11Beacon& q, int t) { q.remove_option((Dot11::OptionTypes)t); }, depth);
-            if (job == 6) histories<PPPoE>("PPPoE", {0x0101, 0x0103}, [&](PPPoE& q, int t, int l) { q.add_tag(PPPoE::tag((PPPoE::TagTypes)t, l, data.data())); }, [](PPPoE&, int) {}, depth);
-            if (job == 7) histories<RTP>("RTP", {1, 2}, [&](RTP& q, int t, int l) { if (l == 0) q.add_csrc_id(t); else if (l == 3) { q.extension_bit(1); q.add_extension_data(t); } else q.padding_size(t); },
+            if (job == 0) histories<TCP>("TCP", {2, 34, 254}, [&](TCP& q, int t, int l) { q.add_option(make_opt<TCP::option>((TCP::OptionTypes)t, l, data)); }, [](TCP& q, int t) { q.remove_option((TCP::OptionTypes)t); }, depth);
+            if (job == 1) histories<IP>("IP", {0x88, 0x07, 0x94}, [&](IP& q, int t, int l) { q.add_option(make_opt<IP::option>(IP::option_identifier((uint8_t)t), l, data)); }, [](IP& q, int t) { q.remove_option(IP::option_identifier((uint8_t)t)); }, depth);
+            if (job == 2) histories<DHCP>("DHCP", {53, 12, 0, 255}, [&](DHCP& q, int t, int l) { q.add_option(make_opt<DHCP::option>((uint8_t)t, l, data)); }, [](DHCP& q, int t) { q.remove_option((DHCP::OptionTypes)t); }, depth);
+            if (job == 3) histories<DHCPv6>("DHCPv6", {1, 8, 17}, [&](DHCPv6& q, int t, int l) { q.add_option(make_opt<DHCPv6::option>((uint16_t)t, l, data)); }, [](DHCPv6& q, int t) { q.remove_option((DHCPv6::OptionTypes)t); }, depth);
+            if (job == 4) histories<ICMPv6>("ICMPv6", {1, 5, 200}, [&](ICMPv6& q, int t, int l) { q.add_option(make_opt<ICMPv6::option>((uint8_t)t, l, data)); }, [](ICMPv6& q, int t) { q.remove_option((ICMPv6::OptionTypes)t); }, depth);
+            if (job == 5) histories<Dot11Beacon>("Dot11Beacon", {0, 3, 221}, [&](Dot11Beacon& q, int t, int l) { q.add_option(make_opt<Dot11::option>((uint8_t)t, l, data)); }, [](Dot11Beacon& q, int t) { q.remove_option((Dot11::OptionTypes)t); }, depth);
+            if (job == 6) histories<PPPoE>("PPPoE", {0x0101, 0x0103}, [&](PPPoE& q, int t, int l) { q.add_tag(make_opt<PPPoE::tag>((PPPoE::TagTypes)t, l, data)); }, [](PPPoE&, int) {}, depth);
+            if (job == 7) histories<RTP>("RTP", {1, 2}, [&](RTP& q, int t, int l) { if (l == 0 || l < 0) q.add_csrc_id(t); else if (l == 3) { q.extension_bit(1); q.add_extension_data(t); } else q.padding_size(t); },
                                             [](RTP& q, int t) { q.remove_csrc_id(t); q.remove_extension_data(t); }, depth);
             if (job == 0) R.sample(jstr("family=P class=ICMPv6 a=prefix_info#0 b=mtu#0 ; family=H class=TCP ops=add34.0,rem34.0,add2.9"));
         };
